@@ -10,7 +10,7 @@ META = dict(
     engine="flo", level="exploration",
     technique="bounded-exhaustive literal grammar x every literal context, built with the real Builder and compared "
               "with an independent reference converter (no sampling)",
-    text="All literals of a grammar complete up to its stated size (sign x digit strings {0,1,10,007,255} x fraction x exponent; "
+    text="All literals of a grammar complete up to its stated size (sign x digit strings {0,1,10,007,255,010,012,0100,0250,00010} x fraction x exponent; 0b/0o tokens; "
          "0x/bare hex; underscores; nan/inf; complex; none/true/yes/false/no in three case variants and near misses; double and "
          "single quoted strings incl. spaces, the other quote, reserved words; dotted paths with leading/trailing dot; lat/lon "
          "N E S W both cases; the six point forms x sign/fraction variants) are placed in each of 15 literal contexts (init, "
@@ -44,7 +44,8 @@ def grammar(tier):
             seen.add(lit)
             out.append((cls, lit))
 
-    digs = ["0", "1", "10", "007", "255"]
+    # 010, 012, 0100, 0250, 00010: leading zero AND decimal reading != hex reading (007 alone cannot tell the two apart)
+    digs = ["0", "1", "10", "007", "255", "010", "012", "0100", "0250", "00010"]
     signs = ["", "-", "+"]
     fracs = ["", ".", ".0", ".5", ".25"]
     exps = ["", "e1", "e+1", "e-1", "E2", "e05"]
@@ -71,6 +72,10 @@ def grammar(tier):
         for p in ["0x", "0X", ""]:
             for s in signs:
                 add("hex", s + p + h)
+    # other python radix prefixes: not documented forms; 0b.. is a bare hex digit string (0b11 = 0xb11), 0o.. is nothing
+    for t in ["0b11", "0B11", "0b0", "0b12", "0o17", "0O17", "0o8", "0b", "0o", "00b11", "0b1_1"]:
+        for s in signs:
+            add("radix", s + t)
     # underscores
     for lit in ["1_000", "1_0", "0_0", "1_000.5", "1_0e1_0", "0x1_f", "-1_000", "ff_ff", "1_000_000"]:
         add("underscore", lit)
@@ -538,7 +543,7 @@ def run():
         "axis letter for points, the text in double or single quotes for strings",
     ]
     return ck.finish(
-        rule="every literal of the grammar (%d literals, classes number/malformed/hex/underscore/naninf/complex/nonebool/quoted/path/"
+        rule="every literal of the grammar (%d literals, classes number/malformed/hex/radix/underscore/naninf/complex/nonebool/quoted/path/"
              "latlon/point2/point3 and near misses) x %d literal contexts, plus %d round-trip values x %d contexts; non-trivial = "
              "(context, literal) pairs whose value the documentation defines" % (len(g), len(CONTEXTS), len(roundtrip_cases()),
                                                                                len(RT_CONTEXTS)),
